@@ -73,6 +73,33 @@ theorem sort_pairwise (l : List Slot) : (sortBalances l).Pairwise (fun x y => x.
   unfold sortBalances
   exact this.imp (by intro a b h; simpa using h)
 
+theorem map_bank_set_same : ∀ (l : List Slot) (i : Nat) (s s' : Slot), l[i]? = some s → s'.bank = s.bank →
+    (l.set i s').map (·.bank) = l.map (·.bank)
+  | [], i, s, s', h, _ => by simp at h
+  | x :: l, 0, s, s', h, hb => by
+    simp only [List.getElem?_cons_zero, Option.some.injEq] at h
+    subst h
+    simp [List.set_cons_zero, hb]
+  | x :: l, i + 1, s, s', h, hb => by
+    simp only [List.getElem?_cons_succ] at h
+    simp only [List.set_cons_succ, List.map_cons, map_bank_set_same l i s s' h hb]
+
+/-- rewriting a slot in place with the same bank key keeps the array sorted -/
+theorem pairwise_set_same {l : List Slot} {i : Nat} {s s' : Slot} (hp : l.Pairwise (fun x y => x.bank ≥ y.bank))
+    (hs : l[i]? = some s) (hb : s'.bank = s.bank) : (l.set i s').Pairwise (fun x y => x.bank ≥ y.bank) := by
+  have h1 : (l.map (·.bank)).Pairwise (fun a b => a ≥ b) := List.pairwise_map.2 hp
+  rw [← map_bank_set_same l i s s' hs hb] at h1
+  exact List.pairwise_map.1 h1
+
+/-- sort ∘ set of a rewritten or closed slot keeps the shape (any bank key) -/
+theorem sortset_shape {key : Nat} {l : List Slot} {i : Nat} {s : Slot} {x' : Balance} (hl : l.length = 16) (hn : (keys l).Nodup)
+    (hs : l[i]? = some s) (ha : s.active = true) (hb : s.bank = key) : Shape (sortBalances (l.set i (ofBal key x'))) := by
+  refine ⟨by simp [sortBalances, List.length_mergeSort, hl], ?_, sort_pairwise _⟩
+  refine (keys_sort _).nodup_iff.2 ?_
+  by_cases hx : x'.active = true
+  · rw [keys_set_same l i s _ hs ha (by simp [ofBal, hx]) (by simp [ofBal, hx, hb])]; exact hn
+  · exact hn.sublist (keys_set_closed l i _ (by simp [ofBal, hx]))
+
 /-- the write-back of a rewritten or closed slot keeps the shape -/
 theorem writeSlot_shape {c : Ctx} {l : List Slot} {i : Nat} {s : Slot} {x' : Balance} (hl : l.length = 16) (hn : (keys l).Nodup)
     (hs : l[i]? = some s) (ha : s.active = true) (hb : s.bank = c.b.key) : Shape (writeSlot c l i x') := by
@@ -160,16 +187,92 @@ theorem close_shape {c : Ctx} {o : Out} (h : closeBalance c = .ok o) (hs : Shape
   rw [ho]
   exact writeSlot_shape hs.len hs.nodup hsl hact hbank
 
+/-- a bankruptcy settlement rewrites the bankrupt position in place: the shape is kept -/
+theorem bankruptcy_shape {c : Ctx} {available : Int} {o : BkrOut} (h : bankruptcy c available = .ok o) (hs : Shape c.a.slots) :
+    Shape o.slots := by
+  obtain ⟨b, i, x, st, _, hi, hx, hst, _, hslots⟩ := bankruptcy_core h
+  obtain ⟨s, hsl, hact, hbank⟩ := findIdx_slot hi
+  obtain ⟨s', hs', rfl⟩ := balAt_ok hx
+  have : s' = s := by rw [hsl] at hs'; injection hs' with hs'; exact hs'.symm
+  subst this
+  have hactive : st.bal.active = true := by
+    unfold settleBankruptcy at hst
+    obtain ⟨badDebt, _, hst⟩ := Res.bind_ok hst
+    obtain ⟨_, _, hst⟩ := Res.bind_ok hst
+    obtain ⟨rest, _, hst⟩ := Res.bind_ok hst
+    obtain ⟨up, _, hst⟩ := Res.bind_ok hst
+    obtain ⟨cu, _, hst⟩ := Res.bind_ok hst
+    obtain ⟨⟨b1, kill⟩, _, hst⟩ := Res.bind_ok hst
+    dsimp only at hst
+    obtain ⟨⟨b2, bal2⟩, hinc, hst⟩ := Res.bind_ok hst
+    injection hst with hst
+    subst hst
+    rw [inc_active hinc]; simpa [toBal] using hact
+  rw [hslots]
+  refine ⟨by simp [hs.len], ?_, pairwise_set_same hs.sorted hsl (by simp [ofBal, hactive, hbank])⟩
+  rw [keys_set_same _ i s' _ hsl hact (by simp [ofBal, hactive]) (by simp [ofBal, hactive, hbank])]
+  exact hs.nodup
+
+/-- a liquidation keeps the shape of BOTH slot arrays -/
+theorem liquidate_shape {c : LiqCtx} {amount : Int} {o : LiqOutW} (h : liquidate c amount = .ok o)
+    (hq : Shape c.lq.slots) (he : Shape c.le.slots) : Shape o.lqSlots ∧ Shape o.leSlots := by
+  obtain ⟨hne, a, l, aLq, aFin, lq1, i1, s1, r1, i2, s2, r2, lq3, i3, s3, r3, i4, s4, r4, f,
+    _, _, hf1, hs1, hr1, hi2, hs2, hr2, hf3, hs3, hr3, hi4, hs4, hr4, hoq, hoe, _, _⟩ := liquidate_core h
+  constructor
+  · -- liquidator: find_or_create, rewrite, find_or_create, rewrite, sort
+    obtain ⟨l1, n1⟩ := findOrCreate_keys hf1 hq.nodup
+    obtain ⟨_, s1', hs1', act1, bk1⟩ := findOrCreate_pos hf1
+    have e1 : s1' = s1 := by rw [hs1] at hs1'; injection hs1' with hs1'; exact hs1'.symm
+    subst e1
+    have a1 : r1.2.active = true := by rw [dec_active hr1]; simpa [toBal] using act1
+    have n1' : (keys (lq1.set i1 (ofBal c.lb.key r1.2))).Nodup := by
+      rw [keys_set_same lq1 i1 s1' _ hs1 act1 (by simp [ofBal, a1]) (by simp [ofBal, a1, bk1])]; exact n1
+    obtain ⟨l3, n3⟩ := findOrCreate_keys hf3 n1'
+    obtain ⟨_, s3', hs3', act3, bk3⟩ := findOrCreate_pos hf3
+    have e3 : s3' = s3 := by rw [hs3] at hs3'; injection hs3' with hs3'; exact hs3'.symm
+    subst e3
+    rw [hoq]
+    exact sortset_shape (by rw [l3]; simp [l1, hq.len]) n3 hs3 act3 bk3
+  · -- liquidatee: sort, two rewrites in place
+    obtain ⟨s2', hs2', act2, bk2⟩ := findIdx_slot hi2
+    have e2 : s2' = s2 := by rw [hs2] at hs2'; injection hs2' with hs2'; exact hs2'.symm
+    subst e2
+    obtain ⟨s4', hs4', act4, bk4⟩ := findIdx_slot hi4
+    have e4 : s4' = s4 := by rw [hs4] at hs4'; injection hs4' with hs4'; exact hs4'.symm
+    subst e4
+    have a2 : r2.2.active = true := by rw [dec_active hr2]; simpa [toBal] using act2
+    have a4 : r4.2.active = true := by rw [inc_active hr4]; simpa [toBal] using act4
+    have hsorted := sort_pairwise c.le.slots
+    have hkeys : (keys (sortBalances c.le.slots)).Nodup := (keys_sort _).nodup_iff.2 he.nodup
+    have hlen : (sortBalances c.le.slots).length = 16 := by simp [sortBalances, List.length_mergeSort, he.len]
+    rw [hoe]
+    refine ⟨by simp [hlen], ?_, ?_⟩
+    · rw [keys_set_same _ i4 s4' _ hs4 act4 (by simp [ofBal, a4]) (by simp [ofBal, a4, bk4]),
+        keys_set_same _ i2 s2' _ hs2 act2 (by simp [ofBal, a2]) (by simp [ofBal, a2, bk2])]
+      exact hkeys
+    · exact pairwise_set_same (pairwise_set_same hsorted hs2 (by simp [ofBal, a2, bk2])) hs4 (by simp [ofBal, a4, bk4])
+
 /-- every account of the world has a well-shaped slot array -/
 def WShape (w : WState) : Prop := ∀ a ∈ w.accts, Shape a.slots
 
-theorem commit_shape {w : WState} {ai bi : Nat} {a : AcctV} {b : WBank} {o : Out} {dA dL : Int}
-    (hw : WShape w) (ho : Shape o.slots) : WShape (w.commit ai bi a b o dA dL) := by
+theorem commit_shape {w : WState} {ai bi : Nat} {a : AcctV} {b : WBank} {slots : List Slot} {flags : Nat} {books : Bank} {opState : Int}
+    {window : Admin.Window} {dA dL : Int}
+    (hw : WShape w) (ho : Shape slots) : WShape (w.commit ai bi a b slots flags books opState window dA dL) := by
   intro x hx
   simp only [WState.commit] at hx
   rcases List.mem_or_eq_of_mem_set hx with hx | hx
   · exact hw x hx
   · rw [hx]; exact ho
+
+theorem commit2_shape {w : WState} {qi ei abi lbi : Nat} {lq le : AcctV} {ab lb : WBank} {o : LiqOutW}
+    (hw : WShape w) (hq : Shape o.lqSlots) (he : Shape o.leSlots) : WShape (w.commit2 qi ei abi lbi lq le ab lb o) := by
+  intro x hx
+  simp only [WState.commit2] at hx
+  rcases List.mem_or_eq_of_mem_set hx with hx | hx
+  · rcases List.mem_or_eq_of_mem_set hx with hx | hx
+    · exact hw x hx
+    · rw [hx]; exact hq
+  · rw [hx]; exact he
 
 theorem step_shape (w : WState) (op : WOp) (hw : WShape w) : WShape (w.step op) := by
   cases op with
@@ -219,6 +322,27 @@ theorem step_shape (w : WState) (op : WOp) (hw : WShape w) : WShape (w.step op) 
         exact commit_shape hw (close_shape ho (hw a (List.mem_of_getElem? ha)))
       · exact hw
     · exact hw
+  | bankruptcy ai bi signer available =>
+    simp only [WState.step]
+    split
+    · rename_i a b ha hb
+      split
+      · rename_i o ho
+        exact commit_shape hw (bankruptcy_shape ho (hw a (List.mem_of_getElem? ha)))
+      · exact hw
+    · exact hw
+  | liquidate qi ei abi lbi signer amount =>
+    simp only [WState.step]
+    split
+    · exact hw
+    · split
+      · rename_i lq le ab lb hq he hab hlb
+        split
+        · rename_i o ho
+          obtain ⟨s1, s2⟩ := liquidate_shape ho (hw lq (List.mem_of_getElem? hq)) (hw le (List.mem_of_getElem? he))
+          exact commit2_shape hw s1 s2
+        · exact hw
+      · exact hw
 
 theorem run_shape (ops : List WOp) : ∀ (w : WState), WShape w → WShape (w.run ops) := by
   induction ops with
